@@ -176,6 +176,8 @@ type Ctx struct {
 	memSorts  map[string]string
 	prune     bool
 	usedPures map[string]bool
+	ignoreWith   bool
+	callArgRoots []string // roots of the objects directly referenced by the arguments of the call being applied
 	assumedClauses map[string]bool
 	foreignUsed bool
 	skippedAtReturn map[string]int
